@@ -327,6 +327,77 @@ pub fn run(ctx: &Ctx) {
     ctx.bound(sub, "11 bases x 12 offsets clearly inside (<= 4e-12) or clearly outside (>= 1.6e-11) the 1e-11 tolerance: == != < > <= >= round ceil floor abs nth-index integer-check print", true);
     ctx.sample(sub, json!({"input": "$x: (1 + 0.000000000004); a{eq: $x == 1; nth: nth((p,q,r), $x)}"}));
 
+    // ---- pairs of off-grid numbers -------------------------------------------------------------------
+    {
+        let sub = "tolerance-pairs";
+        let bases: Vec<f64> = vec![0.0, 1.0, -1.0, 2.0, 7.0, 0.5, -2.5, 100.0];
+        // (offset of a, offset of b, equal?): 2e-12 apart around the middle of a 1e-11 cell (equal whatever
+        // the grid of the implementation's bucketing), and 2e-11 apart (clearly unequal)
+        let pairs: Vec<(f64, f64, bool)> = vec![
+            (4.9e-11, 5.1e-11, true),
+            (-4.9e-11, -5.1e-11, true),
+            (1.49e-10, 1.51e-10, true),
+            (2.49e-10, 2.51e-10, true),
+            (9.9e-11, 1.01e-10, true),
+            (4.0e-11, 6.0e-11, false),
+            (-4.0e-11, -6.0e-11, false),
+            (1.4e-10, 1.6e-10, false),
+        ];
+        let cases: Vec<(f64, f64, f64, bool)> = bases.iter().flat_map(|b| pairs.iter().map(move |(x, y, e)| (*b, *x, *y, *e))).collect();
+        par(
+            ctx,
+            sub,
+            cases.len() as u64,
+            |i| json!({"base": cases[i as usize].0, "offsets": [cases[i as usize].1, cases[i as usize].2]}),
+            |i, l| {
+                let (base, da, db, equal) = cases[i as usize];
+                let (a, b2) = (base + da, base + db);
+                // both numbers must sit well inside one 1e-11 cell for the "equal" cases: skip where the
+                // floating-point sum moved them (large bases)
+                let cell = |v: f64| (v * 1e11).round();
+                if equal && (cell(a) != cell(b2) || ((a * 1e11) - cell(a)).abs() > 0.25 || ((b2 * 1e11) - cell(b2)).abs() > 0.25) {
+                    l.count("not_representable_inside_one_cell", 1);
+                    return;
+                }
+                let src = format!(
+                    "$a: ({} + {}); $b: ({} + {});\nx{{eq: $a == $b; ne: $a != $b; lt: $a < $b; gt: $a > $b; le: $a <= $b; ge: $a >= $b; qe: $b == $a; max: max($a, $b) == $a; idx: index(($a,), $b)}}",
+                    render17(base), render17(da), render17(base), render17(db)
+                );
+                l.evals += 1;
+                let o = compile(&src, &Cfg::scss());
+                l.outcome(o.digest());
+                l.validated += 1;
+                let Outcome::Ok(c) = &o else {
+                    ctx.violation(sub, &format!("tolerance-pair:{}:{}:{}", base, da, db), &format!("program failed: {}", o.brief()), json!({"input": src}));
+                    return;
+                };
+                l.nontrivial += 1;
+                let blocks = css::flatten(&css::parse(c).unwrap_or_default());
+                let get = |p: &str| blocks.iter().flat_map(|b| b.decls.iter()).find(|x| x.0 == p).map(|x| x.1.clone()).unwrap_or_default();
+                let tf = |b: bool| if b { "true" } else { "false" };
+                let mut bad = Vec::new();
+                if get("eq") != tf(equal) || get("qe") != tf(equal) || get("ne") != tf(!equal) {
+                    bad.push(format!("== / reversed == / != are {} / {} / {}", get("eq"), get("qe"), get("ne")));
+                }
+                if equal {
+                    if get("lt") != "false" || get("gt") != "false" || get("le") != "true" || get("ge") != "true" {
+                        bad.push(format!("ordering of fuzzy-equal numbers: lt {} gt {} le {} ge {}", get("lt"), get("gt"), get("le"), get("ge")));
+                    }
+                    if get("idx") != "1" {
+                        bad.push(format!("index() does not find a fuzzy-equal number: {:?}", get("idx")));
+                    }
+                } else if get("lt") != tf(a < b2) || get("gt") != tf(a > b2) {
+                    bad.push(format!("ordering wrong: lt {} gt {}", get("lt"), get("gt")));
+                }
+                if !bad.is_empty() {
+                    ctx.violation(sub, &format!("tolerance-pair:{}:{}:{}", base, da, db), &format!("{} and {} are {} apart: {}", render17(a), render17(b2), (a - b2).abs(), bad.join("; ")), json!({"input": src, "output": c}));
+                }
+            },
+        );
+        ctx.bound(sub, "8 bases x 8 pairs of off-grid numbers: 2e-12 apart inside one 1e-11 cell but on both sides of a 1e-10 boundary (equal), 2e-11 apart (unequal): == in both directions, != < > <= >=, index()", true);
+        ctx.sample(sub, json!({"input": "$a: 1.000000000049; $b: 1.000000000051; x{eq: $a == $b}"}));
+    }
+
     // ---- unary functions against real-valued functions ----------------------------------
     let sub = "math-fns";
     let fns: Vec<(&str, fn(f64) -> f64)> = vec![
